@@ -23,7 +23,7 @@ type Opts struct {
 var AllFeatures = []string{
 	"async", "err", "multi", "bind", "struct", "value", "sets", "lit", "ext", "ctxparam",
 	"composite", "basic", "args", "unneeded", "multi-inj", "multi-file", "dupparam",
-	"generic", "variadic", "variadic-functype", "want-unsupplied", "kalias", "extalias", "value-and-pointer", "rewrap", "struct-both-forms", "alias-basic",
+	"generic", "variadic", "variadic-functype", "want-unsupplied", "kalias", "extalias", "value-and-pointer", "rewrap", "struct-both-forms", "alias-basic", "ctx-provider",
 	"async-struct", "ptrrecv", "aiface", "embedded",
 }
 
@@ -57,6 +57,9 @@ type gen struct {
 	last     bool
 	curExt   string
 	family   string
+	ctxSupplied bool
+	ctxUsed     bool
+	bundle   map[TypeID][]TypeID // field type -> sibling field types and the struct type of its expansion
 	pending  map[TypeID]bool
 	roots    int // the first `roots` units take no provided inputs (fork), the last unit joins
 }
@@ -113,6 +116,11 @@ func (g *gen) importNameTaken(n string) bool {
 	if n == "context" {
 		for i := range g.c.Provs {
 			for _, p := range g.c.Provs[i].Params {
+				if p == CtxType {
+					return true
+				}
+			}
+			for _, p := range g.c.Provs[i].Results {
 				if p == CtxType {
 					return true
 				}
@@ -297,6 +305,9 @@ func (g *gen) freshValueType(extOnly bool, label string) TypeID {
 		// sometimes the value form of a struct whose pointer form is already supplied (or vice versa)
 		if g.want("value-and-pointer", "valptr", 35) {
 			for i := len(g.supplied) - 1; i >= 0; i-- {
+				if g.supplied[i] == CtxType {
+					continue
+				}
 				t := g.c.T(g.supplied[i])
 				if t.Kind == KPtr && g.c.T(t.Elem).Kind == KStruct && g.c.T(t.Elem).Pkg == "" && len(g.c.T(t.Elem).Fields) == 0 {
 					if _, taken := g.supplierUnit[t.Elem]; !taken && !g.pending[t.Elem] {
@@ -471,7 +482,7 @@ func Gen(rt *rapid.T, o Opts) *Case {
 	if o.MaxFiles == 0 {
 		o.MaxFiles = 1
 	}
-	g := &gen{rt: rt, c: &Case{}, o: o, used: map[string]bool{}, nameSeq: map[string]int{}, supplierUnit: map[TypeID]int{}, basicsUsed: map[string]bool{}, consumed: map[TypeID]bool{}, pending: map[TypeID]bool{}}
+	g := &gen{rt: rt, c: &Case{}, o: o, used: map[string]bool{}, nameSeq: map[string]int{}, supplierUnit: map[TypeID]int{}, basicsUsed: map[string]bool{}, consumed: map[TypeID]bool{}, pending: map[TypeID]bool{}, bundle: map[TypeID][]TypeID{}}
 	g.c.Types = []Type{{ID: 0, Kind: "none"}}
 	if g.want("kalias", "kalias", 10) {
 		g.c.KAlias = "ksk"
@@ -613,6 +624,17 @@ func (g *gen) genUnit(i int) {
 		seen[t] = true
 		g.consumed[t] = true
 		p.Params = append(p.Params, t)
+		// siblings: a consumer of one field of an expanded struct often takes another field of it
+		// (or the struct itself) as well
+		if sibs := g.bundle[t]; len(sibs) > 0 && !extForm && len(p.Params) < 5 && rapid.IntRange(0, 99).Draw(g.rt, "sibling") < 55 {
+			s := sibs[rapid.IntRange(0, len(sibs)-1).Draw(g.rt, "sibidx")]
+			if !seen[s] {
+				seen[s] = true
+				g.consumed[s] = true
+				p.Params = append(p.Params, s)
+				g.c.AddFeature("struct-siblings-one-consumer")
+			}
+		}
 	}
 	// variadic: append a slice-typed parameter that is spelled ...Elem
 	if !extForm && g.want("variadic", "variadic", 8) {
@@ -622,6 +644,25 @@ func (g *gen) genUnit(i int) {
 		g.argTypes = append(g.argTypes, sl)
 		p.Params = append(p.Params, sl)
 		p.Variadic = true
+	}
+	// a provider that RETURNS context.Context: consumers of context.Context must get its value
+	takesCtx := false
+	for _, t := range p.Params {
+		if t == CtxType {
+			takesCtx = true
+		}
+	}
+	if takesCtx {
+		g.ctxUsed = true
+	}
+	if !extForm && !g.ctxSupplied && !g.ctxUsed && i > 0 && !g.last && g.want("ctx-provider", "ctxprovider", 4) {
+		g.ctxSupplied = true
+		p.Results = []TypeID{CtxType}
+		p.Name = g.name("NewCtxOf")
+		g.c.Provs = append(g.c.Provs, p)
+		g.units = append(g.units, Elem{Kind: "prov", Prov: p.ID, Async: g.drawAsync("async")})
+		g.supply(CtxType, len(g.units)-1)
+		return
 	}
 	// results
 	nRes := 1
@@ -721,6 +762,12 @@ func (g *gen) genUnit(i int) {
 		g.units = append(g.units, se)
 		for _, f := range st.Fields {
 			g.supply(f.Type, len(g.units)-1)
+			for _, f2 := range st.Fields {
+				if f2.Type != f.Type {
+					g.bundle[f.Type] = append(g.bundle[f.Type], f2.Type)
+				}
+			}
+			g.bundle[f.Type] = append(g.bundle[f.Type], p.Results[0])
 		}
 	}
 }
@@ -896,7 +943,7 @@ func (g *gen) genGroupsAndInjectors() {
 		// requested type: among types supplied by included units, biased to the latest
 		var cands []TypeID
 		for _, t := range g.supplied {
-			if included[g.supplierUnit[t]] {
+			if included[g.supplierUnit[t]] && t != CtxType {
 				cands = append(cands, t)
 			}
 		}
